@@ -55,7 +55,7 @@ impl ops::Deref for Fragment {
 impl cmp::PartialEq for Fragment {
 	#[inline]
 	fn eq(&self, other: &Fragment) -> bool {
-		self.as_pct_str() == other.as_pct_str()
+		crate::utils::pct_eq(self.as_pct_str(), other.as_pct_str())
 	}
 }
 
@@ -78,14 +78,14 @@ impl PartialOrd for Fragment {
 impl Ord for Fragment {
 	#[inline]
 	fn cmp(&self, other: &Fragment) -> cmp::Ordering {
-		self.as_pct_str().cmp(other.as_pct_str())
+		crate::utils::pct_cmp(self.as_pct_str(), other.as_pct_str())
 	}
 }
 
 impl Hash for Fragment {
 	#[inline]
 	fn hash<H: hash::Hasher>(&self, hasher: &mut H) {
-		self.as_pct_str().hash(hasher)
+		crate::utils::pct_hash(self.as_pct_str(), hasher)
 	}
 }
 
